@@ -5,6 +5,9 @@
                                          the document was split into) gets chunk_embeddings[i] if present
      update_frame(id, .., Some e)        the new frame gets e
      update_frame(id, .., None)          the new frame gets what frame id was given (carried over)
+   An empty vector is "no embedding" everywhere (the API documents it so for parents whose chunks
+   carry the embeddings): `norm`.  An update with an explicit empty vector therefore produces a
+   frame without embedding (nothing is carried: the caller did pass one).
    Commit, reopen, crash, vacuum, doctor, enable_vec, automatic checkpoints and log growth are
    invisible.  What vector search must be able to reach: the given pairs whose frame is active. *)
 From MV Require Import Base.Prelude Model.Store Model.StoreSpec Model.VecStore.
@@ -25,9 +28,9 @@ Definition given_step (R : list frame) (G : docs) (x : vop * vout) : docs :=
       if negb (acked (fst o)) then G
       else match op with
            | OPut _ _ nchunks _ _ =>
-               G ++ docs_from (len R) (info_parent i :: chunk_embs (info_chunks i) (N.to_nat nchunks))
+               G ++ docs_from (len R) (norm (info_parent i) :: map norm (chunk_embs (info_chunks i) (N.to_nat nchunks)))
            | OUpdate target _ _ _ =>
-               G ++ opt_doc (len R) (match info_explicit i with Some e => Some e | None => embedding_for G target end)
+               G ++ opt_doc (len R) (norm (match info_explicit i with Some e => Some e | None => embedding_for G target end))
            | _ => G
            end
   end.
@@ -43,13 +46,4 @@ Definition vref_run (st : list frame * docs) (xs : list (vop * vout)) : list fra
 
 (* the documents vector search must hold: given pairs of active frames *)
 Definition expected_docs (R : list frame) (G : docs) : docs := filter (fun d => frame_is_active R (fst d)) G.
-
-(* side conditions *)
-Definition emb_ok_info (i : vinfo) : bool :=
-  match i with
-  | VPut p c _ => (match p with Some e => nonempty e | None => true end) && (match c with Some l => forallb nonempty l | None => true end)
-  | VUpd (Some e) _ => nonempty e
-  | _ => true
-  end.
-Definition emb_ok (x : vop) : bool := match x with VOp _ i => emb_ok_info i | VEnableVec => true end.
 
